@@ -1,0 +1,357 @@
+//! Application datagrams (datagrams.rs): `DatagramState` and the `Datagrams` API on a real
+//! `Connection` (a client connection that has not completed its handshake; the inputs that
+//! `Datagrams::{send,max_size}` read from the connection are set explicitly by `cfg` / `env`).
+//!
+//! A datagram is written `<len>:<tag>` in requests (payload byte i = (tag + i) % 256, len <= 70000)
+//! and `<len>:<checksum of the actual bytes>` in responses.
+//! Requests (first token `dgram` already removed):
+//!   cfg <recv_buffer|-> <send_buffer>      config.datagram_{receive,send}_buffer_size
+//!   env <mtu> <cid_len> <peer_limit|->     path MTU, remote CID length, peer max_datagram_frame_size
+//!   maxsize                                Datagrams::max_size           -> none | ok <n>
+//!   send <d> <drop 0|1>                    Datagrams::send               -> ok | err <Kind> [<d>]
+//!   space                                  Datagrams::send_buffer_space  -> ok <n>
+//!   hasspace <len> <size>                  DatagramState::has_send_buffer_space -> true | false
+//!   mkspace <len> <size>                   DatagramState::make_space_for -> ok
+//!   rcvd <d> <window|->                    DatagramState::received       -> ok <was_empty> | err <CODE> <reason>
+//!   recv                                   Datagrams::recv               -> none | ok <d>
+//!   ovs <max_payload>                      DatagramState::drop_oversized -> true | false
+//!   write <buf_len> <max_size>             DatagramState::write into a buffer of buf_len filler bytes
+//!                                          -> <written> <new_len> <frame header hex> <checksum of buffer>
+//!   wloop <buf_len> <max_size>             the DATAGRAM loop of Connection::populate_packet (replica of the
+//!                                          glue around the real `write`) -> <frames> <new_len> <checksum> <unblocked>
+//!   bhglue                                 the black-hole glue of Connection::detect_lost_packets (replica around
+//!                                          the real max_size/drop_oversized) -> none | ok <dropped> <unblocked>
+//!   poke out <n> | poke in <n>             overwrite outgoing_total / lower recv_buffered (inconsistent states)
+//! Every response ends with ` | o=<outgoing_total>:<queue> i=<recv_buffered>:<queue> b=<send_blocked>`.
+use std::sync::Arc;
+
+use bytes::Bytes;
+use rustls::client::danger::{HandshakeSignatureValid, ServerCertVerified, ServerCertVerifier};
+use rustls::pki_types::{CertificateDer, ServerName, UnixTime};
+
+use super::{hex, num, Comp, BAD};
+use crate::cid_queue::CidQueue;
+use crate::connection::mtud::MtuDiscovery;
+use crate::connection::Connection;
+use crate::crypto::rustls::{configured_provider, QuicClientConfig};
+use crate::frame::{Datagram, FrameStruct};
+use crate::shared::ConnectionId;
+use crate::{ClientConfig, Endpoint, EndpointConfig, Instant, TransportConfig, VarInt};
+
+const MAX_LEN: u64 = 70_000;
+const FILL: u8 = 0xee;
+
+#[derive(Debug)]
+struct NoVerify(Arc<rustls::crypto::CryptoProvider>);
+
+impl ServerCertVerifier for NoVerify {
+    fn verify_server_cert(
+        &self,
+        _end_entity: &CertificateDer<'_>,
+        _intermediates: &[CertificateDer<'_>],
+        _server_name: &ServerName<'_>,
+        _ocsp: &[u8],
+        _now: UnixTime,
+    ) -> Result<ServerCertVerified, rustls::Error> {
+        Ok(ServerCertVerified::assertion())
+    }
+    fn verify_tls12_signature(
+        &self,
+        message: &[u8],
+        cert: &CertificateDer<'_>,
+        dss: &rustls::DigitallySignedStruct,
+    ) -> Result<HandshakeSignatureValid, rustls::Error> {
+        rustls::crypto::verify_tls12_signature(
+            message,
+            cert,
+            dss,
+            &self.0.signature_verification_algorithms,
+        )
+    }
+    fn verify_tls13_signature(
+        &self,
+        message: &[u8],
+        cert: &CertificateDer<'_>,
+        dss: &rustls::DigitallySignedStruct,
+    ) -> Result<HandshakeSignatureValid, rustls::Error> {
+        rustls::crypto::verify_tls13_signature(
+            message,
+            cert,
+            dss,
+            &self.0.signature_verification_algorithms,
+        )
+    }
+    fn supported_verify_schemes(&self) -> Vec<rustls::SignatureScheme> {
+        self.0.signature_verification_algorithms.supported_schemes()
+    }
+}
+
+pub(super) struct DgramC {
+    conn: Connection,
+}
+
+fn transport(recv: Option<usize>, send: usize) -> Arc<TransportConfig> {
+    let mut t = TransportConfig::default();
+    t.datagram_receive_buffer_size(recv)
+        .datagram_send_buffer_size(send);
+    Arc::new(t)
+}
+
+impl DgramC {
+    pub(super) fn new() -> Self {
+        let mut endpoint = Endpoint::new(Arc::new(EndpointConfig::default()), None, true);
+        let crypto = QuicClientConfig::new(Arc::new(NoVerify(configured_provider())));
+        let mut client = ClientConfig::new(Arc::new(crypto));
+        client
+            .transport_config(transport(Some(1000), 1000))
+            .initial_dst_cid_provider(Arc::new(|| ConnectionId::new(&[0u8; 8])));
+        let (_, conn) = endpoint
+            .connect(
+                Instant::now(),
+                client,
+                "127.0.0.1:4433".parse().unwrap(),
+                "localhost",
+            )
+            .unwrap();
+        let mut c = Self { conn };
+        c.env(1200, 8, None);
+        c
+    }
+
+    fn env(&mut self, mtu: u16, cid_len: usize, peer: Option<VarInt>) {
+        self.conn.path.mtud = MtuDiscovery::disabled(mtu, mtu);
+        self.conn.rem_cids = CidQueue::new(ConnectionId::new(&[0u8; 20][..cid_len]));
+        self.conn.peer_params.max_datagram_frame_size = peer;
+    }
+
+    fn st(&self, r: &str) -> String {
+        let d = &self.conn.datagrams;
+        format!(
+            "{r} | o={}:{} i={}:{} b={}",
+            d.outgoing_total,
+            queue(d.outgoing.iter()),
+            d.recv_buffered,
+            queue(d.incoming.iter()),
+            d.send_blocked as u8
+        )
+    }
+}
+
+fn queue<'a>(it: impl Iterator<Item = &'a Datagram>) -> String {
+    let v: Vec<String> = it.map(|d| show(&d.data)).collect();
+    if v.is_empty() {
+        "-".into()
+    } else {
+        v.join(",")
+    }
+}
+
+fn cksum(b: &[u8]) -> u64 {
+    let mut h: u64 = 7;
+    for x in b {
+        h = (h * 31 + *x as u64 + 1) & 0xffff_ffff;
+    }
+    h
+}
+
+fn show(b: &[u8]) -> String {
+    format!("{}:{}", b.len(), cksum(b))
+}
+
+fn usize_(s: &str) -> Option<usize> {
+    num(s).map(|x| x as usize)
+}
+
+fn opt_usize(s: &str) -> Option<Option<usize>> {
+    if s == "-" {
+        Some(None)
+    } else {
+        usize_(s).map(Some)
+    }
+}
+
+fn dgram(s: &str) -> Option<Bytes> {
+    let (l, t) = s.split_once(':')?;
+    let (l, t) = (num(l)?, num(t)?);
+    if l > MAX_LEN || t > 255 {
+        return None;
+    }
+    Some((0..l).map(|i| ((t + i) % 256) as u8).collect::<Vec<u8>>().into())
+}
+
+impl Comp for DgramC {
+    fn exec(&mut self, w: &[&str]) -> String {
+        match w {
+            ["cfg", r, s] => {
+                let (Some(r), Some(s)) = (opt_usize(r), usize_(s)) else {
+                    return BAD.into();
+                };
+                self.conn.config = transport(r, s);
+                self.st("ok")
+            }
+            ["env", mtu, cid, peer] => {
+                let (Some(mtu), Some(cid)) = (num(mtu), num(cid)) else {
+                    return BAD.into();
+                };
+                let Ok(mtu) = u16::try_from(mtu) else {
+                    return BAD.into();
+                };
+                if cid > 20 {
+                    return BAD.into();
+                }
+                let peer = match *peer {
+                    "-" => None,
+                    p => match num(p).and_then(|p| VarInt::from_u64(p).ok()) {
+                        Some(p) => Some(p),
+                        None => return BAD.into(),
+                    },
+                };
+                self.env(mtu, cid as usize, peer);
+                let overhead = self.conn.predict_1rtt_overhead(None);
+                self.st(&format!("ok {overhead}"))
+            }
+            ["maxsize"] => match self.conn.datagrams().max_size() {
+                None => self.st("none"),
+                Some(x) => self.st(&format!("ok {x}")),
+            },
+            ["send", d, drop] => {
+                let Some(d) = dgram(d) else {
+                    return BAD.into();
+                };
+                let drop = match *drop {
+                    "0" => false,
+                    "1" => true,
+                    _ => return BAD.into(),
+                };
+                use crate::SendDatagramError::*;
+                match self.conn.datagrams().send(d, drop) {
+                    Ok(()) => self.st("ok"),
+                    Err(UnsupportedByPeer) => self.st("err UnsupportedByPeer"),
+                    Err(Disabled) => self.st("err Disabled"),
+                    Err(TooLarge) => self.st("err TooLarge"),
+                    Err(Blocked(b)) => self.st(&format!("err Blocked {}", show(&b))),
+                }
+            }
+            ["space"] => {
+                let x = self.conn.datagrams().send_buffer_space();
+                self.st(&format!("ok {x}"))
+            }
+            ["hasspace", l, s] => {
+                let (Some(l), Some(s)) = (usize_(l), usize_(s)) else {
+                    return BAD.into();
+                };
+                let r = self.conn.datagrams.verif_has_send_buffer_space(l, s);
+                self.st(&r.to_string())
+            }
+            ["mkspace", l, s] => {
+                let (Some(l), Some(s)) = (usize_(l), usize_(s)) else {
+                    return BAD.into();
+                };
+                self.conn.datagrams.verif_make_space_for(l, s);
+                self.st("ok")
+            }
+            ["rcvd", d, win] => {
+                let (Some(d), Some(win)) = (dgram(d), opt_usize(win)) else {
+                    return BAD.into();
+                };
+                match self.conn.datagrams.received(Datagram { data: d }, &win) {
+                    Ok(was_empty) => self.st(&format!("ok {was_empty}")),
+                    Err(e) => self.st(&format!(
+                        "err {:?} {}",
+                        e.code,
+                        e.reason.replace(' ', "_")
+                    )),
+                }
+            }
+            ["recv"] => match self.conn.datagrams().recv() {
+                None => self.st("none"),
+                Some(b) => self.st(&format!("ok {}", show(&b))),
+            },
+            ["ovs", m] => {
+                let Some(m) = usize_(m) else {
+                    return BAD.into();
+                };
+                let r = self.conn.datagrams.drop_oversized(m);
+                self.st(&r.to_string())
+            }
+            ["write", bl, max] => {
+                let (Some(bl), Some(max)) = (num(bl), usize_(max)) else {
+                    return BAD.into();
+                };
+                if bl > MAX_LEN {
+                    return BAD.into();
+                }
+                let mut buf = vec![FILL; bl as usize];
+                let front = self.conn.datagrams.outgoing.front().map(|d| d.data.len());
+                let r = self.conn.datagrams.write(&mut buf, max);
+                let hdr = match (r, front) {
+                    (true, Some(l)) if buf.len() >= bl as usize + l => {
+                        hex(&buf[bl as usize..buf.len() - l])
+                    }
+                    _ => "-".into(),
+                };
+                self.st(&format!("{r} {} {hdr} {}", buf.len(), cksum(&buf)))
+            }
+            ["wloop", bl, max] => {
+                let (Some(bl), Some(max_size)) = (num(bl), usize_(max)) else {
+                    return BAD.into();
+                };
+                if bl > MAX_LEN {
+                    return BAD.into();
+                }
+                let mut buf = vec![FILL; bl as usize];
+                // replica of the DATAGRAM block of Connection::populate_packet (space_id == Data)
+                let mut frames = 0u64;
+                let mut sent_datagrams = false;
+                while buf.len() + Datagram::SIZE_BOUND < max_size {
+                    match self.conn.datagrams.write(&mut buf, max_size) {
+                        true => {
+                            sent_datagrams = true;
+                            frames += 1;
+                        }
+                        false => break,
+                    }
+                }
+                let mut unblocked = false;
+                if self.conn.datagrams.send_blocked && sent_datagrams {
+                    unblocked = true;
+                    self.conn.datagrams.send_blocked = false;
+                }
+                self.st(&format!(
+                    "{frames} {} {} {unblocked}",
+                    buf.len(),
+                    cksum(&buf)
+                ))
+            }
+            ["bhglue"] => {
+                // replica of the black-hole branch of Connection::detect_lost_packets
+                let mut r = "none".to_string();
+                if let Some(max_datagram_size) = self.conn.datagrams().max_size() {
+                    let dropped = self.conn.datagrams.drop_oversized(max_datagram_size);
+                    let mut unblocked = false;
+                    if dropped && self.conn.datagrams.send_blocked {
+                        self.conn.datagrams.send_blocked = false;
+                        unblocked = true;
+                    }
+                    r = format!("ok {dropped} {unblocked}");
+                }
+                self.st(&r)
+            }
+            ["poke", which, n] => {
+                let Some(n) = usize_(n) else {
+                    return BAD.into();
+                };
+                match *which {
+                    "out" => self.conn.datagrams.outgoing_total = n,
+                    // only lowered: a raised value would make the eviction loop of `received` spin forever
+                    "in" if n <= self.conn.datagrams.recv_buffered => {
+                        self.conn.datagrams.recv_buffered = n
+                    }
+                    _ => return BAD.into(),
+                }
+                self.st("ok")
+            }
+            _ => BAD.into(),
+        }
+    }
+}
